@@ -39,3 +39,20 @@ Theorem C11_repair_lossless : forall psep lsep ps, psep ++ lsep = lsep ++ psep -
   join psep (repair ps lsep false) = join psep ps.
 Proof. intros psep lsep ps Hc. rewrite (join_repair psep lsep ps false Hc). destruct ps; reflexivity. Qed.
 Print Assumptions C11_repair_lossless.
+
+(* the paragraph loop as a whole: the pieces are computed (with the repair for ambiguous
+   separators), then the callback is invoked once per piece, in order, with the index, the
+   piece, the separator's visible suffix part before every piece but the first and its prefix
+   part after every piece but the last; the results are concatenated and joined by the
+   paragraph separator - for every callback, also failing ones and ones returning several
+   strings (run_paras is that sequencing) *)
+Theorem C11_callback_sequence : forall (C : Classifier) (U : Upper) (op : gpara_op) opts e,
+  let o := with_defaults opts in
+  let parts := split (o_parasep o) (o_linesep o) in
+  let psf := decode (hd [] parts) in
+  let np := match parts with _ :: _ :: _ => decode (last parts []) | _ => [] end in
+  apply_gparagraphs op opts e =
+    do transformed <- run_paras op 0 (pieces (e_text e) (o_parasep o) (o_linesep o)) np psf;
+    Ok (with_text e (join (o_parasep o) transformed)).
+Proof. intros C U. exact apply_gparagraphs_spec. Qed.
+Print Assumptions C11_callback_sequence.
